@@ -23,6 +23,8 @@ ASYM = {
     "ed25519a": ("OKP", 256, "Ed25519"), "ed25519b": ("OKP", 256, "Ed25519"),
     "ed448a": ("OKP", 456, "Ed448"), "ed448b": ("OKP", 456, "Ed448"),
 }
+ASYM.update({"bp256a": ("EC", 256, "brainpoolP256r1"), "bp384a": ("EC", 384, "brainpoolP384r1"),
+             "bp512a": ("EC", 512, "brainpoolP512r1"), "p224a": ("EC", 224, "secp224r1")})
 for _c, _b, _n in (("p256", 256, "P-256"), ("p384", 384, "P-384"), ("p521", 521, "P-521"), ("k256", 256, "secp256k1")):
     for _z in ("zx", "zy", "zd"):
         ASYM[_c + _z] = ("EC", _b, _n)
@@ -518,5 +520,100 @@ def c11_random(ncases, per_case):
                     else:
                         t += b"=" * rnd.choice([1, 2, 3])
                     ops.append(dict(op="Codec", dir="dec", chars=[c for c in t if c != 0]))
+            yield ops
+    return gen
+
+
+# ------------------------------------------------------- whole-API random walks
+def api_walks(ncases, length):
+    """Random sessions over the whole vocabulary: one keyring, two builders, two checkers,
+    four token slots; configuration, callbacks, clock and provider changes interleaved with
+    generate and verify (each also on a fresh twin).  Judged by whatever clauses are on."""
+    KEYS = [octk(32), octk(64, alg="HS512"), asym("rsa2048a", 1, "RS256"), asym("rsa2048a", 0),
+            asym("p256a", 1), asym("p256a", 0, "ES256"), asym("ed25519a", 1), octk(16), asym("p384a", 1, "ES384", kid="k384")]
+    ALGS = ["none", "HS256", "HS512", "RS256", "PS256", "ES256", "ES384", "EdDSA", "HS384"]
+    MATCH = {0: "HS256", 1: "HS512", 2: "RS256", 3: "RS256", 4: "ES256", 5: "ES256", 6: "EdDSA", 7: "HS256", 8: "ES384"}
+
+    def gen(seed):
+        rnd = random.Random(seed * 7368787 + 99)
+        for _ in range(ncases):
+            now = 1_700_000_000
+            ops = [dict(op="Load", ring=0, via="create", doc="keys", keys=KEYS),
+                   dict(op="BNew", b=0), dict(op="BNew", b=1), dict(op="CNew", c=0), dict(op="CNew", c=1)]
+            for _ in range(length):
+                r = rnd.random()
+                o = rnd.randrange(2)
+                if r < 0.14:
+                    idx = rnd.choice([-1, 0, 1, 2, 3, 4, 5, 6, 7, 8])
+                    alg = rnd.choice([MATCH.get(idx, "none"), "none", rnd.choice(ALGS)])
+                    ops.append(dict(op=rnd.choice(["BSetKey", "CSetKey"]), alg=alg, ring=0, key=idx, **({"b": o})))
+                    if ops[-1]["op"] == "CSetKey":
+                        ops[-1].pop("b"); ops[-1]["c"] = o
+                elif r < 0.26:
+                    which = rnd.choice(["hdr", "clm"])
+                    k = rnd.choice(["set", "set", "del", "get"])
+                    n = rnd.choice(["a", "typ", "alg", "iat", "exp", "sub", "kid", "~"])
+                    if k == "set":
+                        t = rnd.choice(["int", "str", "bool"])
+                        v = val(t, n, W(rnd.choice([1, 7, now + 50, now - 50])) if t == "int" else ("x" if t == "str" else 1), rnd.choice([0, 1]))
+                    elif k == "get":
+                        v = val(rnd.choice(["int", "str", "json"]), n)
+                    else:
+                        v = val("int", n)
+                    ops.append(dict(op="BMap", b=o, k=k, which=which, v=v, map=0))
+                elif r < 0.30:
+                    ops.append(dict(op="BIat", b=o, enable=rnd.choice([0, 1])))
+                elif r < 0.35:
+                    ops.append(dict(op="BOffset", b=o, claim=rnd.choice(["exp", "nbf", "iat"]), secs=W(rnd.choice([-5, 0, 1, 30, 3600]))))
+                elif r < 0.41:
+                    ops.append(dict(op="CLeeway", c=o, claim=rnd.choice(["exp", "nbf", "iss"]), secs=W(rnd.choice([-1, 0, 5, 100]))))
+                elif r < 0.46:
+                    ops.append(dict(op="CClaimSet", c=o, claim=rnd.choice(["iss", "sub", "aud", "exp"]), val=rnd.choice(["x", "me", "~"])))
+                elif r < 0.49:
+                    ops.append(dict(op="CClaimDel", c=o, claim=rnd.choice(["iss", "sub", "aud"])))
+                elif r < 0.56:
+                    steps = []
+                    for _ in range(rnd.randrange(0, 3)):
+                        s = rnd.random()
+                        if s < 0.3:
+                            steps.append(dict(k="key", ring=0, key=rnd.choice([-1, 0, 1, 2, 3, 5, 6])))
+                        elif s < 0.5:
+                            steps.append(dict(k="alg", alg=rnd.choice(ALGS)))
+                        elif s < 0.6:
+                            steps.append(dict(k="ret", ret=rnd.choice([0, 1])))
+                        elif s < 0.8:
+                            steps.append(dict(k="set", which="clm", map=0, v=val("str", rnd.choice(["sub", "iss", "cb"]), "x", 1)))
+                        else:
+                            steps.append(dict(k="del", which="clm", map=0, v=val("int", rnd.choice(["exp", "sub", "~"]))))
+                    if rnd.random() < 0.2:
+                        ops.append(dict(op=rnd.choice(["BSetCb", "CSetCb"])))
+                    else:
+                        ops.append(dict(op=rnd.choice(["BSetCb", "CSetCb"]), prog=steps))
+                    ops[-1]["b" if ops[-1]["op"][0] == "B" else "c"] = o
+                elif r < 0.60:
+                    now += rnd.choice([-100, -1, 1, 10, 3600])
+                    ops.append(dict(op="Clock", now=W(now)))
+                elif r < 0.63:
+                    ops.append(dict(op="Ops", name=rnd.choice(["openssl", "gnutls", "gnutls", "bogus"])))
+                elif r < 0.66:
+                    ops.append(dict(op=rnd.choice(["BErrClear", "CErrClear"])))
+                    ops[-1]["b" if ops[-1]["op"][0] == "B" else "c"] = o
+                elif r < 0.80:
+                    ops.append(dict(op="Generate", b=o, slot=rnd.randrange(4), twin=1))
+                else:
+                    if rnd.random() < 0.7:
+                        tok = dict(src="slot", slot=rnd.randrange(4))
+                    else:
+                        ki = rnd.choice([0, 1, 2, 4, 6])
+                        a = rnd.choice([MATCH[ki], MATCH[ki], "none", rnd.choice(ALGS)])
+                        m = []
+                        if rnd.random() < 0.5:
+                            m.append(mem("exp", "int", "", W(now + rnd.choice([-10, -1, 0, 1, 10]))))
+                        if rnd.random() < 0.3:
+                            m.append(mem("iss", "str", rnd.choice(["x", "me"])))
+                        tok = forge(a, pay_m=m, sigcls=rnd.choice(["valid", "valid", "flipbit", "empty", "garbage"]), sigkey=KEYS[ki], sigalg=a)
+                        if tok["sig"]["cls"] == "empty" or a == "none":
+                            tok["sig"] = dict(cls="empty", alg="none", key=octk(32), over="self")
+                    ops.append(dict(op="Verify", c=o, tok=tok, twin=1, nocb=1))
             yield ops
     return gen
